@@ -23,6 +23,18 @@ def passive_branch(ncomp, r, L, ra, cm, g, E, v0):
     return b
 
 
+def passive_cell(ncomps, parents, radii, lengths, ra, cm, g, E):
+    """passive cell whose branch b has ncomps[b] equal compartments, radius radii[b] and total length lengths[b]"""
+    comp = jx.Compartment()
+    cell = jx.Cell([jx.Branch([comp] * k) for k in ncomps], parents=parents)
+    cell.insert(Leak())
+    for b, (k, rad, Lb) in enumerate(zip(ncomps, radii, lengths)):
+        cell.branch(b).set("radius", rad); cell.branch(b).set("length", Lb / k)
+    cell.set("axial_resistivity", ra); cell.set("capacitance", cm)
+    cell.set("Leak_gLeak", g); cell.set("Leak_eLeak", E); cell.set("v", E)
+    return cell
+
+
 def simulate(mod, rec_nodes, stim_node, amp, nsteps, dt, solver, backend):
     mod.delete_recordings(); mod.delete_stimuli()
     mod.select(nodes=rec_nodes).record("v", verbose=False)
@@ -82,7 +94,7 @@ def run(args):
                 if not all(e <= b * (1 + 1e-6) + 1e-9 for e, b in zip(errs, bounds)):
                     R.spec_fail(dict(kind="time-error-exceeds-proved-bound", solver=solver), f"{solver}: error exceeds the proved bound", inp, errs, bounds=bounds)
                 tail = [o for o, e in zip(od[-3:], errs[-3:]) if e > 1e-9]
-                if tail and not all(abs(o - expo) <= 0.25 for o in tail):
+                if tail and not all(o >= expo - 0.25 for o in tail):       # at least the expected order (faster pre-asymptotic decay is no violation)
                     R.spec_fail(dict(kind="time-order", solver=solver), f"{solver}: observed orders {od} expected {expo}", inp, od)
                 if len(R.samples) < 3:
                     R.samples.append(dict(experiment="RC relaxation", solver=solver, errs=errs, orders=od))
@@ -112,8 +124,44 @@ def run(args):
                 if errs[0] > 0.2:
                     R.spec_fail(dict(kind="cable-steady-state", what=name), f"{name} resistance off by {errs[0]:.3g} relative at N={n0*2}", inp, errs)
                 tail = [o for o, e in zip(od[-3:], errs[-3:]) if e > 1e-8]
-                if tail and not all(abs(o - 2) <= 0.3 for o in tail):
+                if tail and not all(o >= 2 - 0.3 for o in tail):
                     R.spec_fail(dict(kind="space-order", what=name), f"{name} resistance: observed orders {od} expected 2", inp, od)
+            # ---------------- (c') the same cable built from SEVERAL branches: a chain of n0 branches (2^k compartments each, i.e. ONE
+            #      compartment per branch on the first rung) is the same discretisation as one branch: same steady state
+            G = lambda x, y: Rinf * math.cosh(min(x, y) / lam) * math.cosh((L - max(x, y)) / lam) / math.sinh(L / lam)
+            for k in (0, 1, 2):
+                N = n0 * 2 ** k
+                one = simulate(passive_branch(N, r, L, ra, cm, g, E, E), [0, N - 1], 0, I, 6, 1e7, "bwd_euler", backend)[:, -1]
+                chain = simulate(passive_cell([2 ** k] * n0, [-1] + list(range(n0 - 1)), [r] * n0, [L / n0] * n0, ra, cm, g, E), [0, N - 1], 0, I, 6, 1e7, "bwd_euler", backend)[:, -1]
+                R.evaluations += 1
+                R.count("chain-of-branches")
+                if not np.allclose(one - E, chain - E, rtol=1e-7, atol=1e-12):
+                    R.spec_fail(dict(kind="chain-of-branches-differs-from-branch", comps_per_branch=2 ** k if k == 0 else "2+"),
+                                f"{backend}: a cable of {n0} chained branches with {2 ** k} compartment(s) each deviates from the same cable as one branch: "
+                                f"{(chain - E).tolist()} vs {(one - E).tolist()} mV above rest", dict(L=L, n0=n0, k=k, **par), (chain - E).tolist(), branch=(one - E).tolist())
+            # ---------------- (c'') Rall's equivalent cylinder: parent + two daughters obeying the 3/2 rule, daughters discretised with
+            #      DIFFERENT compartment counts (the coarser one listed first); input and transfer resistance converge at order 2
+            rd = r * 2.0 ** (-2.0 / 3.0); lam_d = lam * 2.0 ** (-1.0 / 3.0)
+            Lp = 0.4 * L; ell_d = (L - Lp) / lam; Ld = ell_d * lam_d
+            e_in, e_tr = [], []
+            for k in range(1, 5):
+                ncs = [2 * 2 ** k, 1 * 2 ** k, 2 * 2 ** k]
+                tree = passive_cell(ncs, [-1, 0, 0], [r, rd, rd], [Lp, Ld, Ld], ra, cm, g, E)
+                last = sum(ncs) - 1
+                rec = simulate(tree, [0, last], 0, I, 6, 1e7, "bwd_euler", backend)[:, -1]
+                x0 = Lp / ncs[0] / 2; x1 = Lp + (Ld - Ld / ncs[2] / 2) * (lam / lam_d)
+                v_in = E + I * 1e-6 * G(x0, x0); v_tr = E + I * 1e-6 * G(x1, x0)
+                e_in.append(abs(float(rec[0]) - v_in) / abs(v_in - E)); e_tr.append(abs(float(rec[1]) - v_tr) / abs(v_tr - E))
+                R.evaluations += 1
+            R.count("rall-ladder")
+            for name, errs in (("input", e_in), ("transfer", e_tr)):
+                od = orders(errs)
+                inp = dict(L=L, Lp=Lp, Ld=Ld, rd=rd, errs=errs, orders=od, **par)
+                if errs[-1] > 0.05 or not (errs[-1] < errs[0]):
+                    R.spec_fail(dict(kind="rall-tree-steady-state", what=name), f"{backend}: Rall tree (3/2 rule, daughters with different compartment counts): {name} resistance does not approach the equivalent cylinder: relative errors {errs}", inp, errs)
+                tail = [o for o, e in zip(od[-2:], errs[-2:]) if e > 1e-8]
+                if tail and not all(o >= 2 - 0.35 for o in tail):
+                    R.spec_fail(dict(kind="space-order", what=name, geometry="rall-tree"), f"{backend}: Rall tree, {name} resistance: observed orders {od} expected 2", inp, od)
             if len(R.samples) < 3:
                 R.samples.append(dict(experiment="sealed cable", L_over_lambda=L / lam, errs_input=errs_in, orders_input=orders(errs_in), errs_transfer=errs_tr))
     R.explanation = ("proved: amplification factors, local and global order bounds, cosine eigenmodes and their second-order eigenvalue error; "
